@@ -267,9 +267,9 @@ def concrete_eval(e, env):
             if isinstance(op, _ast.In): return l in r
             if isinstance(op, _ast.NotIn): return l not in r
         except TypeError: raise Unknown
-    if isinstance(e, _ast.BinOp) and isinstance(e.op, (_ast.Add, _ast.Sub)):
+    if isinstance(e, _ast.BinOp) and isinstance(e.op, (_ast.Add, _ast.Sub, _ast.Mult)):
         l, r = ev(e.left), ev(e.right)
-        try: return l + r if isinstance(e.op, _ast.Add) else l - r
+        try: return l + r if isinstance(e.op, _ast.Add) else (l - r if isinstance(e.op, _ast.Sub) else l * r)
         except TypeError: raise Unknown
     if isinstance(e, _ast.Subscript) and not isinstance(e.slice, _ast.Slice):
         b, k = ev(e.value), ev(e.slice)
@@ -316,6 +316,19 @@ def resolve_names(fn_node, e):
             if isinstance(node.ctx, _ast.Load):
                 r = resolve_local(fn_node, node)
                 if r is not node: return _copy.deepcopy(r)
+            return node
+    return R().visit(_copy.deepcopy(e))
+
+
+def resolve_attr_aliases(fn_node, e):
+    """like resolve_names, but only locals that merely name an attribute read (`db_session = cache.db_session`) are replaced -- a local holding the
+    result of a call (`cursor = database._exec_sql(..)`) stays a name"""
+    import ast as _ast, copy as _copy
+    class R(_ast.NodeTransformer):
+        def visit_Name(self, node):
+            if isinstance(node.ctx, _ast.Load):
+                r = resolve_local(fn_node, node, depth=1)
+                if r is not node and dotted(r) and isinstance(r, _ast.Attribute): return _copy.deepcopy(r)
             return node
     return R().visit(_copy.deepcopy(e))
 
